@@ -61,7 +61,7 @@ claim(
 claim(
     "C01",
     "other",
-    "Decides, by abstract interpretation of the kernel on symbolic fields over a stencil domain, the structural skeleton that makes the scheme conservative: curl_E/curl_H equal the Levi-Civita curl with forward/backward one-cell differences (mutual adjoints), each derivative carries the metric of its own axis and stencil and the backward metric is the dual width with the first cell replicated, halos are one cell wide and wrap exactly on periodic axes, Bloch ghosts are phase/conj(phase)=exp(+-ikL), PEC/PMC zero exactly the tangential components on their slab at the end of their own half step, update_E/update_H equal the semi-implicit normal forms on every isotropic/diagonal x lossy/lossless path with a contractive loss factor, and forward() steps E then H with H_prev taken before. The energy identity itself, the full-tensor averaging and round-off are not decided.",
+    "Decides, by abstract interpretation of the kernel on symbolic fields over a stencil domain, the structural skeleton that makes the scheme conservative: curl_E/curl_H equal the Levi-Civita curl with forward/backward one-cell differences (mutual adjoints), each derivative carries the metric of its own axis and stencil and the backward metric is the dual width with the first cell replicated, halos are one cell wide and wrap exactly on periodic axes, Bloch ghosts are phase/conj(phase)=exp(+-ikL), PEC/PMC zero exactly the tangential components on their slab at the end of their own half step, update_E/update_H equal the semi-implicit normal forms on every isotropic/diagonal x lossy/lossless path with a contractive loss factor, and forward() steps E then H with H_prev taken before. The Bloch ghost rule covers all three components and, on a resolved (stretched) grid, requires both ghost layers to use the period edges[N] - edges[0]. The energy identity itself, the full-tensor averaging and round-off are not decided.",
     TB + "; sa/ndarr.py stencil/array model (slices, pad, roll, concatenate, at[].set/add as indicator algebra); oracle = definition of the discrete curl and Schneider's semi-implicit loss factor",
     "abstract interpretation over a stencil (shifted-atom) array domain; polynomial identity against the Levi-Civita oracle",
     "DESIGN.md §5 C01",
@@ -70,7 +70,7 @@ claim(
 claim(
     "C02",
     "other",
-    "Decides, as polynomial identities over the reals extended by symbolic atoms, that the composition backward(forward(state)) computed by the abstract interpreter from the current source returns the initial E, H and step counter, on every path the property names: isotropic/diagonal materials x {lossless, electric loss, magnetic loss, both}, scalar permeability, fully anisotropic lossless tensors, zero/periodic halos, Bloch phases on complex fields, PEC/PMC walls on every axis (initial state projected with the repo's own wall hooks), non-uniform metric scales, always-on and scheduled sources with opaque switch/time map. Sources are abstract in that composition (F + sign*J(time argument)); that every exported source class has this form (additive .at[].add, one inverse-controlled sign factor, magnitude and region independent of the field and of `inverse`, no inverse-controlled return) is decided per class by a def-use rule on update_E/update_H and their helpers. Round-off, temporal-profile values and lossy full tensors are not decided.",
+    "Decides, as polynomial identities over the reals extended by symbolic atoms, that the composition backward(forward(state)) computed by the abstract interpreter from the current source returns the initial E, H and step counter, on every path the property names: isotropic/diagonal materials x {lossless, electric loss, magnetic loss, both}, scalar permeability, fully anisotropic lossless tensors, zero/periodic halos, Bloch phases on complex fields, PEC/PMC walls on every axis (initial state projected with the repo's own wall hooks), non-uniform metric scales, always-on and scheduled sources with opaque switch/time map. Sources are abstract in that composition (F + sign*J(time argument)); that every exported source class has this form (additive .at[].add, one inverse-controlled sign factor, magnitude and region independent of the field and of `inverse`, no inverse-controlled return) is decided per class by a def-use rule on update_E/update_H and their helpers. Lossy full tensors: compute_anisotropic_update_matrices / _reverse are interpreted with an exact 3x3 solve on symbolic tensors (diagonal; symmetric inverse tensor with isotropic conductivity; isotropic inverse tensor with full conductivity; thorough: general 9+9 entries) and must satisfy A_r A = 1 and A_r B = B_r per cell. Round-off, temporal-profile values and the off-diagonal spatial averaging of lossy full tensors are not decided.",
     TB + "; sa/ndarr.py stencil/indicator array model; abstract source and lax.cond-as-select models; sa/srcflow.py flow-insensitive def-use closure (control dependences included); non-uniform scenarios use one opaque metric atom per (axis, stencil)",
     "abstract interpretation of forward() then backward() to rational normal forms over a stencil domain, identity by cross-multiplication; syntax-tree def-use (taint) rule for the source classes",
     "DESIGN.md §5 C02",
@@ -88,7 +88,7 @@ claim(
 claim(
     "C08",
     "other",
-    "Decides axis-relabelling equivariance of the solver code: one forward and one backward step of forward()/backward() are abstractly interpreted on scenes invariant under x->y->z->x (every material tier incl. full tensors, both conductivities, non-uniform metric atoms, CPML layers on the three min or max faces with kappa=1 and kappa!=1, PEC/PMC walls and periodic faces on all axes, abstract sources) and output component sigma(c), and each CPML memory variable of layer sigma(p), is compared as a polynomial identity with the relabelled form of component c / layer p; likewise the TFSF face injections of TFSFPlaneSource.update_E/update_H over 3 axes x 2 directions x forward/inverse x material tiers (real and complex incident fields), the Bloch ghost-cell correction, the oriented transverse-axis helper, the PEC/PMC hooks and the absorbing layers' interface slices. Equality of whole runs up to round-off, detectors and source-profile construction are not decided.",
+    "Decides axis-relabelling equivariance of the solver code: one forward and one backward step of forward()/backward() are abstractly interpreted on scenes invariant under x->y->z->x (every material tier incl. full tensors, both conductivities, non-uniform metric atoms, CPML layers on the three min or max faces with kappa=1 and kappa!=1, PEC/PMC walls and periodic faces on all axes, abstract sources) and output component sigma(c), and each CPML memory variable of layer sigma(p), is compared as a polynomial identity with the relabelled form of component c / layer p; likewise the TFSF face injections of TFSFPlaneSource.update_E/update_H over 3 axes x 2 directions x forward/inverse x material tiers (real and complex incident fields), the Bloch ghost-cell correction, the oriented transverse-axis helper, the PEC/PMC hooks and the absorbing layers' interface slices. The Yee sample-offset table and the per-component source delays of calculate_time_offset_yee (three plane orientations, stretched edges) are relabelling-covariant. Equality of whole runs up to round-off, detectors and the rest of source-profile construction are not decided.",
     TB + "; sa/sigma.py axis relabelling of atoms; sa/ndarr.py stencil/indicator array model; abstract source model of C02; jnp clamped out-of-bounds reads modelled only for isotropic (1,...) material arrays",
     "abstract interpretation of one solver step to rational normal forms over a stencil domain; sibling comparison under the axis-relabelling group action (polynomial identity)",
     "DESIGN.md §5 C08",
@@ -97,7 +97,7 @@ claim(
 claim(
     "C10",
     "other",
-    "Decides the algebraic form linearity needs. Sources: update_E/update_H of every exported source class are abstractly interpreted (plane TFSF over 3 axes x material tiers x real/complex incident fields x raw/filtered H profile x direction/inverse; the box source over several faces; the point dipole over type x polarisation x tilt x tiers x sampled/unsampled medium) and the injected increment must be homogeneous of degree exactly 1 in static_amplitude_factor and of degree 0 in the fields; a def-use rule shows the additive .at[].add form per class. Solver: every output of one forward step (E, H, CPML memory) on symbolic scenes (tiers, losses, full tensors, metric, CPML, walls, periodic) is homogeneous of degree 1 jointly in (E, H, psi, source terms), and the coefficient of each source's term is free of every other source's term and on/off indicator, for three source orders mixing default and scheduled switches. Detectors: field and phasor records have degree 1, energy and Poynting records degree exactly 2 in (E, H). Round-off over many steps is not decided.",
+    "Decides the algebraic form linearity needs. Sources: update_E/update_H of every exported source class are abstractly interpreted (plane TFSF over 3 axes x material tiers x real/complex incident fields x raw/filtered H profile x direction/inverse; the box source over several faces; the point dipole over type x polarisation x tilt x tiers x sampled/unsampled medium) and the injected increment must be homogeneous of degree exactly 1 in static_amplitude_factor and of degree 0 in the fields; a def-use rule shows the additive .at[].add form per class. Solver: every output of one forward step (E, H, CPML memory) on symbolic scenes (tiers, losses, full tensors, metric, CPML, walls, periodic) is homogeneous of degree 1 jointly in (E, H, psi, source terms), and the coefficient of each source's term is free of every other source's term and on/off indicator, for three source orders mixing default and scheduled switches. Detectors: field and phasor records have degree 1, energy and Poynting records degree exactly 2 in (E, H). Who-may-read: static_amplitude_factor is read only in update_E / update_H of sources and in the face-injection helpers they call, so profiles, normalisation and temporal profiles cannot depend on it and each injection carries it exactly once. Round-off over many steps is not decided.",
     TB + "; sa/degree.py degree domain (abs/real/imag/conj positively homogeneous, other opaque functions of the fields non-polynomial); sa/tfsf.py source harness; abstract source model of C02 in the solver step",
     "abstract interpretation to rational normal forms + degree (homogeneity) domain; symbolic derivative for cross-source independence; syntax-tree def-use rule",
     "DESIGN.md §5 C10",
@@ -313,7 +313,7 @@ claim(
 claim(
     "C24",
     "other",
-    "Median filter: binary_median_filter interpreted on concrete small volumes of free symbols, for five kernel shapes and six padding configurations (constant / edge / reflect / symmetric faces, per-face widths and fill values, the shipped substrate pattern): every voxel is round(box sum / box size) over the odd box centred on it in the volume padded face by face, checked against an independent pointwise padding oracle; for binary data and odd size that is the majority (arithmetic fact, not read off the code). The module applies it num_repeats times through the straight-through estimator. Pillar discretization: compute_allowed_indices equals, as a duplicate-free set, the columns with background only at the top end and (when requested) at most one distinct non-background material, for heights 1..4, 2..4 materials, every background index (the filter depends only on #distinct non-background values and background presence, all classes realised); nearest_index yields per candidate and pillar the documented distance (Euclidean, or mean|diff-diff| + |mean-mean|) and the argmin of exactly those over the candidate axis; PillarDiscretization writes layer l of the chosen candidate at height l for each pillar axis. Ties / round-off in the argmin are not decided.",
+    "Median filter: binary_median_filter interpreted on concrete small volumes of free symbols, for five kernel shapes and six padding configurations (constant / edge / reflect / symmetric faces, per-face widths and fill values, the shipped substrate pattern): every voxel is round(box sum / box size) over the odd box centred on it in the volume padded face by face, checked against an independent pointwise padding oracle; for binary data and odd size that is the majority (arithmetic fact, not read off the code). The module applies it num_repeats times through the straight-through estimator. Pillar discretization: compute_allowed_indices equals, as a duplicate-free set, the columns with background only at the top end and (when requested) at most one distinct non-background material, for heights 1..4, 2..4 materials, every background index (the filter depends only on #distinct non-background values and background presence, all classes realised); nearest_index yields per candidate and pillar the documented distance (Euclidean, or mean|diff-diff| + |mean-mean|) and the argmin of exactly those over the candidate axis; PillarDiscretization writes layer l of the chosen candidate at height l for each pillar axis. Degenerate extents are included: a design one voxel thick under a 3-d kernel (the padding voxels of the flat axis count), blocks one voxel thick along z keep the configured metric for pillars along x / y, and pillars of height one use |value - candidate|. Ties / round-off in the argmin are not decided.",
     TB + "; n-d convolution and np.pad models on concrete arrays; argmin as an opaque selector; symbolic gather",
     "abstract interpretation on concrete small volumes of free symbols against a pointwise padding / box-sum oracle; small-scope enumeration of the column grammar justified by the filter's equivalence classes; symbolic gather for the write-back",
     "DESIGN.md §5 C24",
